@@ -19,8 +19,10 @@ Theorem C11_col_op_frame : forall f rs as_ res a res',
 Proof. exact col_op_frame. Qed.
 Print Assumptions C11_col_op_frame.
 
-(* all ten modelled vec_znx normalise / lsh / rsh operations (opcodes 8101..8110), any shape, any contents *)
+(* all modelled vec_znx normalise / lsh / rsh operations and the big-accumulator normalisers with their fused forms
+   (opcodes 8101..8110, 8201..8204), any shape, any contents *)
 Theorem C11_c08_vec_frame : forall code ps vs res',
+  In code c08_flat_codes ->
   0 < s_n (rshape ps) ->
   run_c08_vec code ps vs = Some [res'] ->
   length res' = length (v vs 0) /\
